@@ -124,16 +124,16 @@ func c16StatKind(s string) string {
 // ---- observation ---------------------------------------------------------------------
 
 type c16Sub struct {
-	Count   int      `json:"count"` // number of queries the backend received
-	Bad     string   `json:"bad"`   // not parsable / unexpected shape
-	Table   string   `json:"table"`
-	Cols    []string `json:"cols"`
-	Filter  []string `json:"filter"`
-	Stats   []string `json:"stats"`
-	Limit   *int     `json:"limit"`
-	Auth    string   `json:"auth"`
-	Other   bool     `json:"other"` // carries Sort/Offset/Backends/Wait headers
-	Reply   [][]interface{} `json:"reply"` // stats queries: what the backend answered
+	Count  int             `json:"count"` // number of queries the backend received
+	Bad    string          `json:"bad"`   // not parsable / unexpected shape
+	Table  string          `json:"table"`
+	Cols   []string        `json:"cols"`
+	Filter []string        `json:"filter"`
+	Stats  []string        `json:"stats"`
+	Limit  *int            `json:"limit"`
+	Auth   string          `json:"auth"`
+	Other  bool            `json:"other"` // carries Sort/Offset/Backends/Wait headers
+	Reply  [][]interface{} `json:"reply"` // stats queries: what the backend answered
 }
 
 type c16Obs struct {
@@ -437,6 +437,35 @@ func c16Render(list []*Filter, prefix string) []string {
 	return res
 }
 
+// c16Prepare computes what does not depend on the daemon: the client's filter and Stats lines as lmd
+// renders them and, per backend, the dataset rows (all backend columns) that satisfy the client's filter
+// according to vbackend's evaluator.
+func c16Prepare(in *c16Input, obs *c16Obs) {
+	creq, perr := c16ParseText(verifNewDaemon(), in.text())
+	if perr != nil {
+		obs.ParseErr = perr.Error()
+
+		return
+	}
+	obs.CFilter = c16Render(creq.Filter, "")
+	obs.CStats = c16Render(creq.Stats, "Stats")
+	bcols := c16BackendCols()
+	obs.Matched = nil
+	for i := range in.Backends {
+		tab := &vTable{Cols: in.Cols, Rows: in.Backends[i].Rows}
+		getter := c16Getter(tab)
+		matched := [][]interface{}{}
+		for _, row := range c16MatchRows(tab, creq.Filter) {
+			full := make([]interface{}, len(bcols))
+			for k, c := range bcols {
+				full[k] = getter(row, c)
+			}
+			matched = append(matched, full)
+		}
+		obs.Matched = append(obs.Matched, matched)
+	}
+}
+
 func c16RunCase(idx int, in *c16Input) *c16Obs {
 	obs := &c16Obs{}
 	lmd := verifNewDaemon()
@@ -447,14 +476,7 @@ func c16RunCase(idx int, in *c16Input) *c16Obs {
 		}
 	}()
 	text := in.text()
-	creq, perr := c16ParseText(verifNewDaemon(), text)
-	if perr != nil {
-		obs.ParseErr = perr.Error()
-	} else {
-		obs.CFilter = c16Render(creq.Filter, "")
-		obs.CStats = c16Render(creq.Stats, "Stats")
-	}
-	bcols := c16BackendCols()
+	c16Prepare(in, obs)
 	for i := range in.Backends {
 		bin := &in.Backends[i]
 		front := newC16Front(fmt.Sprintf("c16-%d-%d", idx, i))
@@ -476,24 +498,12 @@ func c16RunCase(idx int, in *c16Input) *c16Obs {
 			peer.peerState.Set(PeerStatusDown)
 			peer.lastError.Set("forced down")
 		case "refuse":
+			// the peer believes the backend is up, nobody listens
+			front.vb.SetMode(vModeRefuse)
 			peer.peerState.Set(PeerStatusUp)
 		default:
 			panic("c16: bad state " + bin.State)
 		}
-		// independent of what lmd forwards: the rows matching the client's filter
-		matched := [][]interface{}{}
-		if creq != nil {
-			tab := &vTable{Cols: in.Cols, Rows: bin.Rows}
-			getter := c16Getter(tab)
-			for _, row := range c16MatchRows(tab, creq.Filter) {
-				full := make([]interface{}, len(bcols))
-				for k, c := range bcols {
-					full[k] = getter(row, c)
-				}
-				matched = append(matched, full)
-			}
-		}
-		obs.Matched = append(obs.Matched, matched)
 	}
 
 	raw, err := vQuery(lmd, text)
@@ -646,7 +656,9 @@ func c16RunAll(inputs []*c16Input) []*c16Obs {
 		}
 		// the child died while running case `begun`
 		msg := c16CrashLine(stderr.String())
-		res = append(res, &c16Obs{Crash: msg})
+		crashed := &c16Obs{Crash: msg}
+		c16Prepare(rest[got], crashed)
+		res = append(res, crashed)
 		c16CleanSockets(cmd.Process.Pid)
 	}
 
